@@ -120,7 +120,7 @@ func c13Scenarios(tier string) []*Scenario {
 	}
 	out = append(out, c13TwoLive(0, 0))
 	out = append(out, c13SlowHandshake(bound))
-	for _, at := range []time.Duration{c13I, c13W} { // between rounds, and exactly when the client's own DWR goes out
+	for _, at := range []time.Duration{c13I, c13W, c13W + 3*c13I/2} { // before the first round, exactly when the client's own DWR goes out, and in the quiet part between two rounds
 		out = append(out, c13PeerDWR(at, bound))
 	}
 	out = append(out, &Scenario{Name: "server/dwr-grid", Seq: c13Server})
